@@ -61,6 +61,9 @@ fn main() {
             }
         }
         Some("oracle") => {
+            // the oracles compare the implementation with Rust specifications / std, not with the Lean model:
+            // their domains may therefore also hold inputs far larger than the model driver is run on
+            util::ORACLE_MODE.store(true, std::sync::atomic::Ordering::Relaxed);
             let prop = &args[2];
             let tier = &args[3];
             let seed: u64 = args[4].parse().expect("seed");
